@@ -406,6 +406,10 @@ def cases(tier):
         if n == 3 and tier == 'quick':
             kinds = ('in', 'inmap', 'with', 'let', 'if', 'try', 'tryh',
                      'fin', 'sub', 'treex')
+        if n == 3 and tier != 'quick':
+            # three blocks: the 31 kinds with a probed section (the kinds
+            # with an empty section etc. are combined in pairs only)
+            kinds = KINDS[:31]
         if n == 4:
             kinds = ('in', 'with', 'let', 'if', 'try', 'tryh', 'tryf',
                      'fin', 'sub', 'treex')
